@@ -200,7 +200,7 @@ impl World {
         let allow_unwind = self.allow_unwind;
         let calc = &mut self.calc;
         let r = clock::with_clock(clk, false, || {
-            std::panic::catch_unwind(std::panic::AssertUnwindSafe(|| match op {
+            crate::obs::guarded(|| std::panic::catch_unwind(std::panic::AssertUnwindSafe(|| match op {
                 AdminOp::UpdateCurrency { name, rate } => AdminObs::Bool(calc.update_currency(name, *rate)),
                 AdminOp::SetTimezone { tz } => AdminObs::Res(calc.set_timezone(tz.clone())),
                 AdminOp::SetDecimalSep { s } => { calc.set_decimal_seperator(s.clone()); AdminObs::Unit }
@@ -215,7 +215,7 @@ impl World {
                 AdminOp::DeleteRule { lang, name } => AdminObs::Bool(calc.delete_rule(lang.clone(), name.clone())),
                 AdminOp::AddType { name } => AdminObs::Bool(calc.add_dynamic_type(name.clone())),
                 AdminOp::AddTypeItem(it) => AdminObs::Bool(calc.add_dynamic_type_item(it.family.clone(), it.index, it.format.clone(), it.parse.clone(), it.upgrade.clone(), it.downgrade.clone(), it.names.clone(), None, None, None)),
-            }))
+            })))
         });
         match r.0 {
             Ok(o) => o,
